@@ -20,15 +20,31 @@ func requestTypes(c *Ctx, rule string) (top, specific []types.Type) {
 	}
 	c.looked("makePacket")
 	seen := map[string]bool{}
-	eachInstr(mk, func(in ssa.Instruction) {
-		if mi, ok := in.(*ssa.MakeInterface); ok && typeName(mi.Type()) == "requestPacket" {
-			t := mi.X.Type()
-			if !seen[t.String()] {
-				seen[t.String()] = true
-				top = append(top, t)
+	// makePacket itself, and the constructors it calls when the switch on the type byte has become a table of them
+	// (func() requestPacket values, resolved through the call graph)
+	makers := []*ssa.Function{mk}
+	if n := p.VTA().Nodes[mk]; n != nil {
+		for _, e := range n.Out {
+			f := e.Callee.Func
+			if f == nil || f == mk || f.Blocks == nil || !inModule(f) {
+				continue
+			}
+			if rs := f.Signature.Results(); rs.Len() == 1 && f.Signature.Params().Len() == 0 && typeName(rs.At(0).Type()) == "requestPacket" {
+				makers = append(makers, f)
 			}
 		}
-	})
+	}
+	for _, f := range makers {
+		eachInstr(f, func(in ssa.Instruction) {
+			if mi, ok := in.(*ssa.MakeInterface); ok && typeName(mi.Type()) == "requestPacket" {
+				t := mi.X.Type()
+				if !seen[t.String()] {
+					seen[t.String()] = true
+					top = append(top, t)
+				}
+			}
+		})
+	}
 	ub := p.Func("(*sshFxpExtendedPacket).UnmarshalBinary")
 	if ub == nil {
 		c.missing(rule, "(*sshFxpExtendedPacket).UnmarshalBinary")
